@@ -110,7 +110,7 @@ def modelBin (op : String) (x y : WInt) : Option (Option WInt) :=
   | "ashr" => some (WInt.ashr x y)
   | "join" => some (some (WInt.join x y))
   | "meet" | "narrow" => some (some (WInt.meet x y))
-  | "widen" => some (WInt.widen x y)
+  | "widen" => some (some (WInt.widen x y))
   | "trim" => some (some (WInt.trim x y))
   | _ => none
 
